@@ -46,6 +46,10 @@ M = [
      "                        if model is not None and a in model.constraint_dynamic_m.keys():", "                        if False:", ["C06"]),
     ("empty_sum_dropped", "src/vsc/model/rand_info_builder.py",
      "        if len(e.arr.field_l) == 0:\n            # The sum of no elements", "        if False:\n            # The sum of no elements", ["C02", "C04"]),
+    ("dynamic_block_not_rolled_back", "src/vsc/visitors/constraint_override_rollback_visitor.py",
+     "        for c in f.constraint_dynamic_model_l:\n            c.accept(self)", "        pass", ["C04"]),
+    ("objlist_clear_keeps_objects", "src/vsc/types.py",
+     "        self.get_model().clear()\n        self.backing_arr.clear()", "        self.get_model().clear()", ["C04"]),
     ("ult_to_slt", "src/vsc/model/expr_bin_model.py",
      "ret = btor.Ult(lhs_n, rhs_n)", "ret = btor.Slt(lhs_n, rhs_n)", ["C01"]),
     ("uext_to_sext", "src/vsc/model/expr_bin_model.py",
